@@ -295,6 +295,52 @@ KNOWN_F01A = live_finding("F01a")
 KNOWN_F01C = live_finding("F01c")
 BOUNDED = [pattern_length_merge_is_sound, distribute_exact_length]
 
+
+# ------------------------------------------------------------------------------------------------- make_positive_strategy: values are generated FROM the location's schema, only ever narrowed
+HYP1 = "schemathesis.specs.openapi._hypothesis:"
+
+
+def _from_schema_rec(it, a, k):
+    it.ghost["generated_from"] = it.B._deepcopy(a[0], {})
+    it.ghost["generated_from_obj"] = a[0]
+    it.ghost["options"] = dict(k)
+    return fresh_opaque(it, "StrategyRef")
+
+
+R.extern["hypothesis_jsonschema.from_schema"] = _from_schema_rec
+R.contract(HYP1 + "_build_custom_formats", args={"custom_formats": Opq("Any"), "generation_config": Opq("Any")}, returns=Opq("Formats"), trusted=True, note="format name -> strategy table (string formats only narrow `type: string`)")
+PropS = OneOf(Const({"type": "string"}), Const({"type": "string", "pattern": "^a+$"}), Const({"type": "integer", "minimum": 1}), Const({"type": "string", "format": "date"}))
+
+
+class _LocSchema(D):
+    def make(self, it, name, idx=()):
+        props = {n: it.B._deepcopy(PropS.make(it, f"{name}.{n}"), {}) for n in ("a", "b") if it.path.choose([(False, True), (True, True)], f"has:{n}")}
+        it.path.bounded_inputs.add("location schemas with up to 2 properties out of 4 property schemas")
+        return {"type": "object", "properties": props, "required": [n for n in props if n == "a"], "additionalProperties": False}
+
+
+R.contract(
+    HYP1 + "make_positive_strategy",
+    prop="C01",
+    args={"schema": _LocSchema(), "operation_name": Str, "location": Choice("query", "header", "cookie", "path", "body"), "media_type": NoneT,
+          "generation_config": Obj("spec:GenCfg1", allow_x00=Bool, codec=Opt(Str)), "custom_formats": NoneT},
+    ghost={"generated_from": None, "generated_from_obj": None, "options": None},
+    raises=[],
+    ensures={
+        # positive data conforms to the API schema: values are drawn from THE schema of the location - every keyword it has is still there; the only change ever made is an
+        # additional `format` on header / cookie properties that are plain strings (a format narrows the strings, it cannot admit anything the schema rejects)
+        "every_keyword_of_the_location_schema_is_kept": "all(k in ghost('generated_from') and (ghost('generated_from')[k] == old(deep(schema))[k] or k == 'properties') for k in old(deep(schema))) and "
+            "all(n in ghost('generated_from')['properties'] and all(kw in ghost('generated_from')['properties'][n] and ghost('generated_from')['properties'][n][kw] == old(deep(schema))['properties'][n][kw] "
+            "for kw in old(deep(schema))['properties'][n]) for n in old(deep(schema))['properties'])",
+        "only_a_format_on_plain_string_headers_is_added": "length(ghost('generated_from')) == length(old(deep(schema))) and all(length(ghost('generated_from')['properties'][n]) == length(old(deep(schema))['properties'][n]) + "
+            "(1 if location in ('header', 'cookie') and old(deep(schema))['properties'][n] == {'type': 'string'} else 0) for n in old(deep(schema))['properties'])",
+        "configured_string_restrictions_are_passed_on": "same_b(ghost('options')['allow_x00'], generation_config.allow_x00) and same_b(ghost('options')['codec'], generation_config.codec)",
+    },
+    replayable=False,
+)
+R.spec_funcs["deep"] = lambda it, v: it.B._deepcopy(v, {})
+R.spec_funcs["same_b"] = lambda it, a, b: (a is None and b is None) if (a is None or b is None) else __import__("pyvc.ops", fromlist=["eq"]).eq(a, b)
+
 LEVEL_TEXT = ("Deductive for the quantifier/length arithmetic (all integers), the range distribution (up to 3 parts, labelled bounded), nullable/file and readOnly rewriting; "
               "regex text surgery and the DP branch by exhaustive differential stand-ins. Generator validity (E1) is trusted. Level other.")
 LEVEL_NOTE = "Trusted: hypothesis-jsonschema (E1), jsonschema / re (E3), sre_parse, pyvc semantics (E9). The converse (cases are produced) is not decided."
